@@ -102,6 +102,11 @@ def cases(ctx):
         k += 1
         if ctx.mine(k):
             yield c
+    # ---- process history: what the FIRST use of an instruction shape looked like must not decide later range checks ----
+    for mode in ("bool", "numpy", "float"):
+        k += 1
+        if ctx.mine(k):
+            yield {"kind": "first-use", "mode": mode, "expect": "out"}
     # ---- integer-like operand types (numpy scalars as produced by application code that computes its operands) ----
     for flav, m in (("vanilla", "set"), ("vanilla", "rot_x"), ("nv", "rot_y"), ("vanilla", "array"), ("vanilla", "store"),
                     ("vanilla", "crot_z"), ("vanilla", "load"), ("reids", "set")):
@@ -242,6 +247,25 @@ def run_case(ctx, case):
     from netqasm.lang.parsing.text import parse_text_subroutine
     kind = case["kind"]
     out = case["expect"] == "out"
+    if kind == "first-use":
+        import json
+        import os
+        import subprocess
+        import sys
+        probe = os.path.join(os.path.dirname(os.path.dirname(os.path.abspath(__file__))), "harness", "firstuse_probe.py")
+        try:
+            p = subprocess.run([sys.executable, probe, case["mode"]], capture_output=True, text=True, timeout=300)
+            rep = json.loads(p.stdout.strip().splitlines()[-1])
+        except Exception as e:  # the probe itself failed: nothing observed
+            ctx.count("first_use_probe_failed")
+            ctx.notes["first_use_probe_error"] = f"{type(e).__name__}: {str(e)[:200]}"
+            return ctx.case(case, False)
+        ctx.count("out_of_range_rejected", rep["checked"] - len(rep["violations"]))
+        ctx.count("first_use_probes", rep["first_uses"])
+        for v in rep["violations"][:1]:
+            ctx.fail(case, f"silently altered: in a process whose first {v['mnemonic']} carried its operands as {case['mode']}, "
+                           f"{[v['mnemonic'], v['values']]} was encoded without error and decodes as {v['decoded']}")
+        return ctx.case(case, True)
     if kind in ("program-direct", "program-text"):
         flav, instrs = case["flavour"], case["instrs"]
         if kind == "program-direct":
